@@ -224,6 +224,17 @@ def universes(tier):
                 # container default needs Default: only for the base field types (i32, Option<String>)
                 t.derive_default = True
             add(t, desc="struct2{%s}" % ",".join("%s=%s" % c if c[1] else c[0] for c in combo))
+    # `#[serde(default, skip_serializing_if = "<container>::is_empty")]` on every container kind (and the Option form): T omits the member when it is
+    # empty, so T' must accept its absence; as a struct member and as a member of a struct variant
+    skips = [(("vec", "i32"), "Vec::is_empty"), (("map", "i32"), "std::collections::BTreeMap::is_empty"), (("map", "String"), "std::collections::BTreeMap::is_empty"),
+             (("set", "String"), "std::collections::BTreeSet::is_empty"), ("String", "String::is_empty"), (("opt", ("map", "i32")), "Option::is_none"),
+             (("opt", ("vec", "u8")), "Option::is_none")]
+    for ft, pred in skips:
+        fld = {"name": "labels", "ty": ft, "attrs": ["default", 'skip_serializing_if = "%s"' % pred]}
+        add(TypeDef(nm(), "struct", [{"name": "name", "ty": "String"}, dict(fld)]), desc="struct{skip_if_empty %s}" % rust_ty(ft))
+        if tier != "quick" or ft in (("map", "i32"), ("vec", "i32")):
+            add(TypeDef(nm(), "enum", variants=[{"name": "Plain", "kind": "unit"}, {"name": "Tagged", "kind": "struct", "fields": [{"name": "name", "ty": "String"}, dict(fld)]}],
+                        tagging="internal"), desc="enum:internal[struct variant with skip_if_empty %s]" % rust_ty(ft))
     # enums: tagging x variant kind sets
     payloads = ["i32", "String", ("vec", "u8"), ("opt", "i32"), ("tuple", "i32", "String"), ("tuple1", "i32"), ("arr", "i32")] if tier != "quick" else ["i32", "String", ("tuple1", "i32")]
     for tagging in TAGGINGS:
